@@ -87,6 +87,19 @@ def table_twins(task):
     if tm.obs_impl(c, W, H) != tm.obs_impl(build().table, W, H):
         fail("birth", "same answers", "different answers", "clone-answers-differ-at-birth")
 
+    # a clone of the clone (with and without reads in between) answers like the original
+    for reads in (False, True):
+        nev += 1
+        s1 = build()
+        c1 = s1.table.clone
+        if reads:
+            tm._apply_impl(c1, ("read_all",))
+        c2 = c1.clone
+        if c2.serialize() != s1.table.serialize() or tm.obs_impl(c2, W, H) != tm.obs_impl(build().table, W, H):
+            fail("birth", "clone of a clone == original", "differs", "clone-of-clone-differs")
+        if c2._tmap is c1._tmap or c2._cmap is c1._cmap or c2._indexes["_tmap"] is c1._indexes["_tmap"]:
+            fail("birth", "own lists", "shared list object", "shared-map-object")
+
     # ---- reference: each op alone on a fresh original / on a fresh clone
     def run_alone_orig(a):
         s = build()
